@@ -574,6 +574,43 @@ impl Corpus for MyServ {
     }
 }
 
+// a service whose methods sort differently by name (what the spec asks for) and by the hash of the name (what records
+// use): "Z" < "ab" < "b" < "query it" by bytes, but hash("Z") = 90 < hash("b") = 98 < hash("ab") < hash("query it")
+candid::define_service!(pub MyServ2 : {
+    "b": candid::func!((Nat) -> (Int) query);
+    "ab": candid::func!(() -> ());
+    "query it": candid::func!((Vec<u8>) -> () oneway);
+    "Z": MyFunc::ty()
+});
+impl Corpus for MyServ2 {
+    fn cname() -> String {
+        "MyServ2".into()
+    }
+    fn gen(rng: &mut Rng, fuel: &mut i64) -> Self {
+        *fuel -= 1;
+        MyServ2(Service {
+            principal: Principal::try_from_slice(&gen_principal(rng)).unwrap(),
+        })
+    }
+    fn model(&self) -> RValue {
+        RValue::Service(self.0.principal.as_slice().to_vec())
+    }
+    fn body(_tb: &mut TB) -> RType {
+        RType::service(vec![
+            ("Z".into(), RType::func(vec![RType::Nat8, RType::Text], vec![RType::Nat], vec![Mode::Query])),
+            ("ab".into(), RType::func(vec![], vec![], vec![])),
+            ("b".into(), RType::func(vec![RType::Nat], vec![RType::Int], vec![Mode::Query])),
+            ("query it".into(), RType::func(vec![RType::vec(RType::Nat8)], vec![], vec![Mode::Oneway])),
+        ])
+    }
+    fn same(&self, o: &Self) -> bool {
+        self == o
+    }
+    fn kind() -> &'static str {
+        "reference"
+    }
+}
+
 #[derive(CandidType, Deserialize, Debug, Clone)]
 pub struct Big {
     pub id: u64,
